@@ -293,7 +293,9 @@ func (r *run) do(b, method, raw string, form url.Values) (*world.Resp, error) {
 		}
 		return resp, nil
 	}
-	return nil, fmt.Errorf("browser %s sent to unknown host %q", b, u.Host)
+	// the browser was sent somewhere outside the fixture (another host, a malformed address): nothing answers there.
+	// That is an observation (the trace records where it was sent), not a failure of the driver.
+	return &world.Resp{Status: 0, Header: http.Header{}}, nil
 }
 
 func resolve(cur, loc string) string {
